@@ -5,6 +5,7 @@ CONSTANTS
   Closers = {1, 2}
   AsIs_D8 = TRUE
   AsIs_D9 = FALSE
+  Mut_CloseSkipsDeadStream = FALSE
 SPECIFICATION GenSpec
 INVARIANTS TypeOK NoPanic
 CHECK_DEADLOCK FALSE
